@@ -6,7 +6,7 @@ the value of every bystander vector are checked."""
 import lifecycle
 import ownrules
 
-RULES = ('B.inv', 'B.inv.empty', 'B.acc', 'B.exc.bystander', 'B.oob')
+RULES = ('B.inv', 'B.inv.empty', 'B.acc', 'B.exc.bystander', 'B.oob', 'B.exc.terminate')
 
 
 def run(db, rep, tier):
@@ -29,4 +29,4 @@ def run(db, rep, tier):
     rep.floor('B.allocsites', len(sites), 3)
     rep.sample('B.allocfail', 'allocation sites: ' + ', '.join(sites))
     import fixtures
-    fixtures.controls_own(rep)
+    fixtures.controls_own(rep, db)
